@@ -14,11 +14,16 @@ import (
 	"pgregory.net/rapid"
 
 	"verifharness/internal/evid"
+	"verifharness/internal/refserver"
 	"verifharness/internal/repocheck"
+	"verifharness/internal/stores"
 	"verifharness/internal/syncx"
 )
 
-func TestMain(m *testing.M) { evid.Main("C09", m) }
+func TestMain(m *testing.M) {
+	refserver.TrustTestCert()
+	evid.Main("C09", m)
+}
 
 type Case struct {
 	T        syncx.Topology `json:"t"`
@@ -29,6 +34,10 @@ type Case struct {
 	TableNeg bool           `json:"table_neg"`
 	Explicit bool           `json:"explicit"` // explicit refspecs instead of the remote's default
 	Haves    int            `json:"haves"`    // haves per round trip (session leg)
+	// Reset > 0 (fetch only): the server speaks HTTP/2 and cuts its Reset-th packfile response after
+	// ResetAfter bytes with RST_STREAM(INTERNAL_ERROR), the fault `wrgl fetch` retries on.
+	Reset      int `json:"reset,omitempty"`
+	ResetAfter int `json:"reset_after,omitempty"`
 }
 
 var sub = evid.Register("sync", run)
@@ -37,13 +46,17 @@ func TestPropSync(t *testing.T) {
 	rapid.Check(t, func(t *rapid.T) {
 		c := Case{
 			T:        syncx.GenTopology(t, evid.Scale(4, 7)),
-			Op:       rapid.SampledFrom([]string{"fetch", "fetch", "push", "push", "pull", "session", "session", "refetch", "refetch"}).Draw(t, "op"),
+			Op:       rapid.SampledFrom([]string{"fetch", "fetch", "push", "push", "pull", "session", "session", "refetch", "refetch", "shallowpush"}).Draw(t, "op"),
 			Depth:    rapid.SampledFrom([]int{0, 0, 0, 1, 2, 3}).Draw(t, "depth"),
 			Force:    rapid.IntRange(0, 3).Draw(t, "force") == 0,
 			MaxPack:  rapid.SampledFrom([]uint64{0, 1, 300, 5000}).Draw(t, "maxpack"),
 			TableNeg: rapid.Bool().Draw(t, "tableneg"),
 			Explicit: rapid.Bool().Draw(t, "explicit"),
 			Haves:    rapid.SampledFrom([]int{1, 2, 5, 256}).Draw(t, "haves"),
+		}
+		if c.Op == "fetch" && rapid.IntRange(0, 2).Draw(t, "streamReset") == 0 {
+			c.Reset = rapid.IntRange(1, 2).Draw(t, "resetPackfile")
+			c.ResetAfter = rapid.SampledFrom([]int{0, 1, 5, 40, 200, 1500, 100000}).Draw(t, "resetAfter")
 		}
 		if c.Op == "refetch" && rapid.Bool().Draw(t, "revertTemplate") {
 			// The remote branch is reset to a new commit f that sits on an older commit e_i and
@@ -97,11 +110,12 @@ func sameRefs(a, b *syncx.RefState) error {
 }
 
 func run(c Case) (o evid.Outcome, err error) {
-	w, err := syncx.Build(c.T)
+	w, err := syncx.Build(c.T, c.Reset > 0)
 	if err != nil {
 		return o, fmt.Errorf("HARNESS: %v", err)
 	}
 	defer w.Close()
+	w.Server.AbortPackfile, w.Server.AbortAfter = c.Reset, c.ResetAfter
 	w.Server.MaxPackfileSize = c.MaxPack
 	w.Server.TableNegotiation = c.TableNeg
 	o.Class("op=%s", c.Op)
@@ -173,6 +187,8 @@ func run(c Case) (o evid.Outcome, err error) {
 		return runSession(c, w, o)
 	case "refetch":
 		return runRefetch(c, w, o)
+	case "shallowpush":
+		return runShallowPush(c, w, o)
 	}
 
 	before, err := w.LocalRefs()
@@ -278,6 +294,9 @@ func run(c Case) (o evid.Outcome, err error) {
 		}
 	}
 	o.NonTrivial = moved+rmoved >= 1 && newCommits >= 2 && (stats.NegotiationRounds >= 2 || stats.PackfilesSent+stats.PackfilesReceived >= 2 || c.Depth > 0)
+	if stats.Aborts > 0 {
+		o.Class("stream-reset-in-packfile-%d", c.Reset)
+	}
 	if stats.NegotiationRounds >= 2 {
 		o.Class("multi-round-negotiation")
 	}
@@ -449,5 +468,110 @@ func runRefetch(c Case, w *syncx.World, o evid.Outcome) (evid.Outcome, error) {
 	if w.Server.Stats.NegotiationRounds >= 2 {
 		o.Class("multi-round-negotiation")
 	}
+	return o, nil
+}
+
+// runGuarded runs a command and turns a panic of the command into an error (the statement is
+// conditional on the command succeeding; how it fails is not C09's subject).
+func runGuarded(w *syncx.World, args ...string) (out string, err error) {
+	defer func() {
+		if r := recover(); r != nil {
+			err = fmt.Errorf("command panicked: %v", r)
+		}
+	}()
+	return w.Repo.Run(args...)
+}
+
+// runShallowPush: a depth-limited fetch leaves older commits without data on the local side; a
+// branch is put on a fetched commit and pushed to a second, empty remote (optionally after the
+// first remote was removed, so that no fetch reflog says where the missing data could come from).
+// If that push succeeds, the second remote must hold the branch's whole history with all data.
+func runShallowPush(c Case, w *syncx.World, o evid.Outcome) (evid.Outcome, error) {
+	d1 := c.Depth
+	if d1 == 0 {
+		d1 = 1
+	}
+	if out, err := w.Repo.Run("fetch", "origin", "--depth", fmt.Sprint(d1)); err != nil {
+		o.Class("command-failed")
+		evid.Note("shallowpush: first fetch failed: %s", firstLine(err.Error()+" "+out))
+		return o, nil
+	}
+	tip := -1
+	for _, r := range c.T.Refs {
+		if r.R >= 0 {
+			tip = r.R
+		}
+	}
+	if tip < 0 {
+		o.Class("nothing-to-do")
+		return o, nil
+	}
+	ldb, lrs, closeL, err := w.Repo.Open()
+	if err != nil {
+		return o, fmt.Errorf("HARNESS: %v", err)
+	}
+	if !objects.CommitExist(ldb, w.Sums[tip]) {
+		closeL()
+		o.Class("nothing-to-do")
+		return o, nil
+	}
+	shallow := 0
+	for a := range w.G.Anc(tip) {
+		if !objects.TableExist(ldb, w.Tables[a]) {
+			shallow++
+		}
+	}
+	if err := ref.SaveRef(lrs, "heads/pushme", w.Sums[tip], "local", "local@example.com", "branch", "created", nil); err != nil {
+		closeL()
+		return o, fmt.Errorf("HARNESS: %v", err)
+	}
+	closeL()
+	ors, _, closeORS, err := stores.NewRefStore()
+	if err != nil {
+		return o, fmt.Errorf("HARNESS: %v", err)
+	}
+	defer closeORS()
+	other := refserver.New(stores.NewMem(), ors)
+	defer other.Close()
+	if c.Explicit {
+		// the remote the commits came from is forgotten
+		if out, err := w.Repo.Run("remote", "remove", "origin"); err != nil {
+			return o, fmt.Errorf("HARNESS: remote remove: %v (%s)", err, out)
+		}
+		o.Class("origin-removed")
+	}
+	if out, err := w.Repo.Run("remote", "add", "other", other.URL); err != nil {
+		return o, fmt.Errorf("HARNESS: remote add: %v (%s)", err, out)
+	}
+	if c.MaxPack > 0 {
+		if out, err := w.Repo.Run("config", "set", "pack.maxFileSize", fmt.Sprint(c.MaxPack)); err != nil {
+			return o, fmt.Errorf("HARNESS: config set: %v (%s)", err, out)
+		}
+	}
+	args := []string{"push", "other", "refs/heads/pushme:refs/heads/pushme"}
+	out, cerr := runGuarded(w, args...)
+	rrefs, _ := syncx.ReadRefs(other.RS)
+	if sum, ok := rrefs.Refs["heads/pushme"]; ok {
+		node := w.NodeOf(sum)
+		if node < 0 {
+			return o, fmt.Errorf("second remote: ref moved to an unknown commit")
+		}
+		if err := w.CheckClosure(other.DB, node, 0, nil); err != nil {
+			return o, fmt.Errorf("a depth-%d fetch (%d commits of c%d's history left without data locally), then `wrgl %s` to an empty remote (err=%v): the remote branch was created but on that remote %v", d1, shallow, node, strings.Join(args, " "), cerr, err)
+		}
+	}
+	if err := repocheck.Consistent(other.DB, other.RS); err != nil {
+		return o, fmt.Errorf("after `wrgl %s` (err=%v) the second remote is inconsistent: %v", strings.Join(args, " "), cerr, err)
+	}
+	if shallow > 0 {
+		o.Class("shallow-local-history")
+	}
+	if cerr != nil {
+		o.Class("command-failed")
+		evid.Note("shallowpush failed: %s", firstLine(cerr.Error()+" "+out))
+	} else {
+		o.Class("push-succeeded")
+	}
+	o.NonTrivial = shallow > 0
 	return o, nil
 }
